@@ -3,6 +3,7 @@ CONSTANTS
   N = 4
   FlushPolicy = "skip_some"
   MayFail = TRUE
+  MayFlushFail = TRUE
 INVARIANT C11_AckedDurable
 INVARIANT C11_InOrderPrefix
 INVARIANT C11_AtMostOneFragment
